@@ -41,9 +41,9 @@ fn main() {
                 None => print!("{}", out),
             }
         }
-        Some("try") => {
-            // try <hexbytes> : run both sides with default settings and print them
-            let b = util::unhex(&args[2]);
+        Some("try") | Some("tryfile") => {
+            // try <hexbytes> | tryfile <path> : run both sides with default settings and print them
+            let b = if args[1] == "tryfile" { std::fs::read(&args[2]).expect("file") } else { util::unhex(&args[2]) };
             let s = detect::Sett::default();
             let mut d = driver::Driver::spawn();
             let real = detect::real_detect(&b, &s);
